@@ -72,11 +72,9 @@ class AsyncFunctionNodeExecutor:
         if inspect.iscoroutine(result):
             result = await result
 
-        # Handle async generators
-        if inspect.isasyncgen(result):
-            result = [item async for item in result]
-        # Handle sync generators
-        elif inspect.isgenerator(result):
-            result = list(result)
+        # Handle generator nodes - accumulate to list (same test as the sync
+        # executor: the node's declared mode, not the type of the returned value)
+        if node.is_generator:
+            result = [item async for item in result] if inspect.isasyncgen(result) else list(result)
 
         return wrap_outputs(node, result)
